@@ -47,7 +47,17 @@ impl Prog {
 pub struct Leaves {
     pub bools: Vec<ExprRef>,
     pub vals: Vec<ExprRef>,
+    /// Boolean expressions used for the guard-conversion clause only (Import / Ite condition): every binary
+    /// Boolean operator and every 1-bit comparison with leaf and compound operands in either position
+    pub conv: Vec<ExprRef>,
     pub names: Vec<String>,
+}
+
+impl Leaves {
+    pub fn get(&self, i: usize) -> ExprRef {
+        let (nb, nv) = (self.bools.len(), self.vals.len());
+        if i < nb { self.bools[i] } else if i < nb + nv { self.vals[i - nb] } else { self.conv[i - nb - nv] }
+    }
 }
 
 /// Boolean leaves: expressions over 6 Boolean terminals plus terminals with non-Boolean operands
@@ -78,12 +88,41 @@ pub fn make_leaves(ctx: &mut Context) -> Leaves {
     bools.push(ctx.equal(c[0], c[1]));
     bools.push(ctx.ite(c[0], c[1], c[2]));
     let vals = vec![x, y, z, w, ctx.bit_vec_val(5u32, 4u32)];
+    // conversion leaves (added after an independently seeded change reordered the operands that
+    // expr_to_guard receives for `implies(compound, leaf)`; the fixed list above had only implies(leaf, leaf))
+    let mut operands: Vec<ExprRef> = vec![c[0], c[1], ctx.greater(x, y)];
+    operands.push(ctx.not(c[1]));
+    operands.push(ctx.and(c[0], c[2]));
+    operands.push(ctx.xor(c[1], c[2]));
+    operands.push(ctx.implies(c[3], c[4]));
+    let mut conv = vec![];
+    for (ai, a) in operands.clone().into_iter().enumerate() {
+        conv.push(ctx.not(a));
+        for (bi, b) in operands.clone().into_iter().enumerate() {
+            conv.push(ctx.and(a, b));
+            conv.push(ctx.or(a, b));
+            conv.push(ctx.xor(a, b));
+            conv.push(ctx.implies(a, b));
+            conv.push(ctx.equal(a, b));
+            conv.push(ctx.greater(a, b));
+            conv.push(ctx.greater_signed(a, b));
+            conv.push(ctx.greater_or_equal(a, b));
+            conv.push(ctx.greater_or_equal_signed(a, b));
+            if (ai + bi) % 2 == 0 {
+                conv.push(ctx.ite(a, b, c[5]));
+                conv.push(ctx.ite(c[5], a, b));
+                conv.push(ctx.ite(b, c[5], a));
+            }
+        }
+    }
+    conv.sort();
+    conv.dedup();
     let mut names = vec![];
     use patronus::expr::SerializableIrNode;
-    for b in bools.iter().chain(vals.iter()) {
+    for b in bools.iter().chain(vals.iter()).chain(conv.iter()) {
         names.push(b.serialize_to_str(ctx));
     }
-    Leaves { bools, vals, names }
+    Leaves { bools, vals, conv, names }
 }
 
 fn gen_prog(rng: &mut Rng, boolean: bool, depth: usize, lv: &Leaves) -> Prog {
@@ -170,7 +209,7 @@ fn eval(env: &mut Env, p: &Prog, boolean: bool) -> Result<Node, (String, String,
     let guarded = |what: &str, r: Result<Node, (String, String)>| r.map_err(|(l, m)| (what.to_string(), l, m));
     let node = match p {
         Prog::New(i) => {
-            let v = if *i < env.lv.bools.len() { env.lv.bools[*i] } else { env.lv.vals[*i - env.lv.bools.len()] };
+            let v = env.lv.get(*i);
             let vs = ValueSummary::new(&mut env.gc, v);
             if boolean {
                 // guard conversion clause
@@ -287,6 +326,14 @@ fn exhaustive(depth2: bool, lv: &Leaves) -> Vec<(Prog, bool)> {
             }
         }
     }
+    // conversion leaves: as a guard on its own, as an ite condition, and combined with a plain Boolean summary
+    let base = nb + lv.vals.len();
+    for i in 0..lv.conv.len() {
+        let a = Prog::New(base + i);
+        out.push((Prog::Import(bx(&a)), true));
+        out.push((Prog::Ite(bx(&a), bx(&vl[0]), bx(&vl[1])), false));
+        out.push((Prog::Bin(1, bx(&Prog::Import(bx(&a))), bx(&bl[0])), true));
+    }
     if depth2 {
         // ite summaries combined with each other: shared / different / complementary conditions
         for (ci, c1) in bl.iter().enumerate() {
@@ -356,7 +403,7 @@ pub fn run(tier: Tier, seed: u64, replay: Option<serde_json::Value>) -> i32 {
         rep.merge(p);
     }
     let _ = proto_ctx.get_true().get_type(&proto_ctx);
-    rep.extra.insert("bounds".into(), json!({"boolean_leaves": lv.bools.len(), "value_leaves": lv.vals.len(), "guard_terminals": "6 Boolean symbols + terminals with non-Boolean operands (x > y, x == z)",
+    rep.extra.insert("bounds".into(), json!({"boolean_leaves": lv.bools.len(), "guard_conversion_leaves": lv.conv.len(), "value_leaves": lv.vals.len(), "guard_terminals": "6 Boolean symbols + terminals with non-Boolean operands (x > y, x == z)",
         "exhaustive": "all single operations over all leaves + structured depth-2 combinations of ite/import summaries", "seeded_histories": n, "max_depth": tier.pick(5, 7)}));
     rep.extra.insert("functions_encoded".into(), json!(["ValueSummary::new", "apply_bin_op", "apply_ite", "coalesce", "import_into_guard", "GuardCtx::expr_to_guard"]));
     rep.extra.insert("outside_claim".into(), json!(["summaries over more than the listed terminals", "Value implementations other than ExprRef"]));
